@@ -59,20 +59,22 @@ Done == ~ ENABLED Next
 
 \* Ref: BFS distance in the directed graph of successful contacts, R0 removed
 Live(u, v) == Adj(u, v) /\ Succ(u, v) /\ u \notin R0 /\ v \notin R0
-D0 == [v \in Nodes |-> IF v \in I0 THEN 0 ELSE INF]
-Relax(D) == [v \in Nodes |->
-    IF v \in R0 THEN INF
-    ELSE LET c == {D[u] + 1 : u \in {x \in Nodes : Live(x, v) /\ D[x] < INF}} \cup {D[v]}
-         IN CHOOSE x \in c : \A y \in c : x <= y]
-RECURSIVE Iter(_, _)
-Iter(D, k) == IF k = 0 THEN D ELSE Iter(Relax(D), k - 1)
-Dist == Iter(D0, Scenarios[sc].n)
+\* BFS by layers, as a set of <<node, distance>> pairs (sets are evaluated eagerly by TLC)
+NextLayer(front, reached) == {v \in Nodes \ (reached \cup R0) : \E u \in front : Live(u, v)}
+RECURSIVE LayerPairs(_, _, _)
+LayerPairs(front, reached, d) ==
+    IF front = {} THEN {}
+    ELSE LET nl == NextLayer(front, reached)
+         IN {<<v, d>> : v \in front} \cup LayerPairs(nl, reached \cup nl, d + 1)
+DistPairs == LayerPairs(I0, I0, 0)
+DistIn(P, v) == IF \E p \in P : p[1] = v THEN (CHOOSE p \in P : p[1] = v)[2] ELSE INF
 
 \* with one-step infectiousness (no recovery test) the epidemic is a BFS; with a test,
 \* staying infectious longer cannot infect anyone new under a time-independent rule
-BFS == Done => \A v \in Nodes :
-          IF Dist[v] < INF /\ (Dist[v] = 0 \/ Tmin + Dist[v] - 1 < Tmax)
-          THEN infT[v] = Tmin + Dist[v] ELSE infT[v] = INF
+BFS == Done => LET P == DistPairs IN \A v \in Nodes :
+          LET d == DistIn(P, v) IN
+          IF d < INF /\ (d = 0 \/ Tmin + d - 1 < Tmax)
+          THEN infT[v] = Tmin + d ELSE infT[v] = INF
 OneStep == (Done /\ NoTest) => \A v \in Nodes : (infT[v] < INF /\ infT[v] < t) => recT[v] = infT[v] + 1
 Conserved == Cardinality({u \in Nodes : st[u] \in {"S", "I", "R"}}) = Scenarios[sc].n
 Mono == [][\A u \in Nodes : (st[u] = "R" => st'[u] = "R") /\ (st'[u] = "S" => st[u] = "S")]_vars
